@@ -1959,6 +1959,18 @@ class CheckImplied(todict.PrintNode):
         self.expr = expr
         self.decls = decls
 
+    def argument_name(self, node):
+        """Return the name of the argument passed to size, len or len_trim.
+        It must be the name of another argument, not an expression.
+        """
+        arg = node.args[0]
+        if not isinstance(arg, declast.Identifier):
+            raise RuntimeError(
+                "{}:Argument of '{}' must be the name of an argument: {}".format(
+                    self.context.linenumber, node.name, self.expr)
+            )
+        return arg.name
+
     def visit_Identifier(self, node):
         """Check arguments to implied attribute.
 
@@ -1975,7 +1987,7 @@ class CheckImplied(todict.PrintNode):
                     "{}:Too many arguments to 'size': ".format(
                         self.context.linenumber, self.expr)
                 )
-            argname = node.args[0].name
+            argname = self.argument_name(node)
             arg = declast.find_arg_by_name(self.decls, argname)
             if arg is None:
                 raise RuntimeError(
@@ -1990,7 +2002,7 @@ class CheckImplied(todict.PrintNode):
                     "{}:Too many arguments to '{}': {}".format(
                         self.context.linenumber, node.name, self.expr)
                 )
-            argname = node.args[0].name
+            argname = self.argument_name(node)
             arg = declast.find_arg_by_name(self.decls, argname)
             if arg is None:
                 raise RuntimeError(
